@@ -14,23 +14,32 @@
 (* "serverclosed", "other:...".                                              *)
 EXTENDS Integers, Sequences, FiniteSets
 
-CONSTANTS Slack        \* ms: how much later than due a timeout may fire / a call may return ("promptly")
+CONSTANTS Slack,       \* ms: how much later than due a timeout may fire / a call may return ("promptly")
+          MinRemote    \* ms: smallest remote max_idle_timeout the implementation honours (5000)
 
 VARIABLES blocked,     \* call id -> side, for calls that have not returned
           cause,       \* side -> [kind, class, t]  (first cause recorded on that side; kind "" = none yet)
           seen,        \* side -> set of error classes its calls / context reported
           lastRecv,    \* side -> time the last packet was delivered to it
           firstSend,   \* side -> time of the first data-bearing datagram it sent after lastRecv (-1 none)
-          idle,        \* negotiated idle timeout (ms), 0 = none
+          idle,        \* side -> the idle period in force there (ms), 0 = none: the smaller of its own configured value and what
+                       \* the peer advertised (a peer that advertises nothing imposes no limit)
           ka,          \* keep-alives are sent (and answered: the scenario has no loss)
           step
 vars == <<blocked, cause, seen, lastRecv, firstSend, idle, ka, step>>
 Sides == {"c", "s"}
 Other(x) == IF x = "c" THEN "s" ELSE "c"
-NoStep == [kind |-> "none", side |-> "c", class |-> "", t |-> 0, n |-> 0, late |-> FALSE, dt |-> 0]
+NoStep == [kind |-> "none", side |-> "c", class |-> "", t |-> 0, n |-> 0, late |-> FALSE, dt |-> 0, ok |-> FALSE]
 NoCause == [kind |-> "", class |-> "", t |-> 0]
 Max(a, b) == IF a > b THEN a ELSE b
 
+MinPos(a, b) == IF a = 0 THEN b ELSE IF b = 0 THEN a ELSE IF a < b THEN a ELSE b
+\* conf: side -> max_idle_timeout it is configured with; adv: side -> the value it advertises (0 = parameter omitted)
+\* Deliberate deviation of the implementation, modelled as such: a value the peer advertises below MinRemote (5 s) is
+\* treated as MinRemote (internal/wire/transport_parameters.go: "the minimum value that we accept for the remote idle
+\* timeout"), so an endpoint configured with more than its peer's small value outlives the peer's timer.
+Floor(v) == IF v = 0 THEN 0 ELSE IF v < MinRemote THEN MinRemote ELSE v
+Negotiated(conf, adv) == [x \in Sides |-> MinPos(conf[x], Floor(adv[Other(x)]))]
 Start(idl, k) ==
   /\ blocked' = <<>> /\ cause' = [x \in Sides |-> NoCause] /\ seen' = [x \in Sides |-> {}]
   /\ lastRecv' = [x \in Sides |-> 0] /\ firstSend' = [x \in Sides |-> -1] /\ idle' = idl /\ ka' = k /\ step' = NoStep
@@ -43,10 +52,11 @@ Cause(side, kind, class, t) ==
   /\ cause' = IF cause[side].kind = "" THEN [cause EXCEPT ![side] = [kind |-> kind, class |-> class, t |-> t]] ELSE cause
   /\ step' = [NoStep EXCEPT !.kind = "Cause", !.side = side, !.class = class, !.t = t]
   /\ UNCHANGED <<blocked, seen, lastRecv, firstSend, idle, ka>>
-Returned(id, side, class, t, late, dt) ==
+\* ok: a call made after the end succeeded (judged by LateCallsFail; it reports no cause at all)
+Returned(id, side, class, t, late, dt, ok) ==
   /\ blocked' = [x \in DOMAIN blocked \ {id} |-> blocked[x]]
-  /\ seen' = [seen EXCEPT ![side] = @ \cup {class}]
-  /\ step' = [NoStep EXCEPT !.kind = "Returned", !.side = side, !.class = class, !.t = t, !.late = late, !.dt = dt]
+  /\ seen' = IF ok THEN seen ELSE [seen EXCEPT ![side] = @ \cup {class}]
+  /\ step' = [NoStep EXCEPT !.kind = "Returned", !.side = side, !.class = class, !.t = t, !.late = late, !.dt = dt, !.ok = ok]
   /\ UNCHANGED <<cause, lastRecv, firstSend, idle, ka>>
 \* the call returned without error before anything ended the connection: it was not blocked
 Unblocked(id) ==
@@ -75,7 +85,9 @@ Leak == step' = [NoStep EXCEPT !.kind = "Leak"] /\ UNCHANGED <<blocked, cause, s
 \* every call returns with the one recorded cause, the context carries it too
 OneCause == \A x \in Sides : Cardinality(seen[x]) <= 1
 \* ... and that cause is the one that ended the connection there (the harness knows what it did)
-RightCause == (step.kind \in {"Returned", "Ctx"} /\ cause[step.side].class # "") => step.class = cause[step.side].class
+RightCause == (step.kind \in {"Returned", "Ctx"} /\ ~step.ok /\ cause[step.side].class # "") => step.class = cause[step.side].class
+\* a call made after the end does not succeed
+LateCallsFail == step.kind = "Returned" => ~step.ok
 \* promptly
 \* (a call made after the end: measured from its own start)
 Prompt == (step.kind \in {"Returned", "Ctx"} /\ cause[step.side].kind # "") =>
@@ -86,9 +98,9 @@ NoLeak == step.kind # "Leak"
 \* the idle timeout fires no earlier than the negotiated period after the last packet received, and not much later
 \* than that period after the last packet received / the first data sent since
 IdleTiming ==
-  (step.kind = "Cause" /\ step.class = "idle" /\ idle > 0) =>
-     /\ step.t >= lastRecv[step.side] + idle
-     /\ step.t <= Max(lastRecv[step.side], firstSend[step.side]) + idle + Slack
+  (step.kind = "Cause" /\ step.class = "idle" /\ idle[step.side] > 0) =>
+     /\ step.t >= lastRecv[step.side] + idle[step.side]
+     /\ step.t <= Max(lastRecv[step.side], firstSend[step.side]) + idle[step.side] + Slack
 \* ... and never while keep-alives are being answered
 NoIdleWhileKeptAlive == (step.kind = "Cause" /\ ka) => step.class # "idle"
 =============================================================================
